@@ -92,6 +92,19 @@ def check_vec(o):
         v3 = t2.as_vector()
         if v3.shape != vv.shape or not L.close(v3, vv, TOL):
             bad.append(("from_vector(v).as_vector() != v", {"v": vv, "got": v3}, None))
+        # the same parameters handed over as a strided view / read-only array / float32 / (whole numbers) int64
+        ro = keep.copy()
+        ro.setflags(write=False)
+        variants = [("a strided view", np.repeat(keep, 2)[::2], TOL), ("a read-only array", ro, TOL), ("float32", keep.astype(np.float32), 1e-5)]
+        if np.array_equal(keep, np.round(keep)) and "Rotation" not in cls:
+            variants.append(("int64", keep.astype(np.int64), TOL))
+        for name, vec, tol in variants:
+            try:
+                t4 = t.from_vector(vec)
+                if type(t4) is not type(t) or not L.close(np.asarray(t4.h_matrix, dtype=float), M2, tol):
+                    bad.append(("from_vector given %s differs from from_vector of the plain array" % name, {"v": keep, "got": t4.h_matrix, "want": M2}, None))
+            except Exception as e:
+                bad.append(("from_vector given %s raises %s" % (name, type(e).__name__), {"v": keep}, None))
         # later in-place edits of the caller's vector must not reach the new object
         vv[...] = 7.5
         if not L.close(t2.h_matrix, M2, TOL):
